@@ -427,7 +427,8 @@ impl TraitEnv {
 
         let constr = match receiver_ty {
             tast::Ty::TEnum { name } | tast::Ty::TStruct { name } => Some(name.clone()),
-            tast::Ty::TApp { ty, .. } => Some(ty.get_constr_name_unsafe()),
+            // the head of an (erroneous) application may be a type parameter: `T[int32]` has no constructor
+            tast::Ty::TApp { ty, .. } => constr_name_of(ty),
             _ => None,
         };
         if let Some(constr) = constr
@@ -711,4 +712,14 @@ pub fn format_compile_diagnostics(diagnostics: &Diagnostics, src: &str) -> Vec<S
             }
         })
         .collect()
+}
+
+fn constr_name_of(ty: &tast::Ty) -> Option<String> {
+    match ty {
+        tast::Ty::TEnum { name } | tast::Ty::TStruct { name } => Some(name.clone()),
+        tast::Ty::TApp { ty, .. } => constr_name_of(ty),
+        tast::Ty::TVec { .. } => Some("Vec".to_string()),
+        tast::Ty::TRef { .. } => Some("Ref".to_string()),
+        _ => None,
+    }
 }
